@@ -2,6 +2,12 @@ mod tables;
 
 pub use tables::CLDR_VERSION;
 
+/// Verification hook (add-only, off by default): read-only access to the compiled tables.
+#[cfg(unic_locale_verif)]
+pub mod verif_tables {
+    pub use super::tables::*;
+}
+
 use crate::subtags;
 
 unsafe fn lang_from_parts(
